@@ -2,8 +2,7 @@
    ones the theorems are about; restatement of the operation theorems for the instantiated model
    (the functions that are extracted and run against the C). *)
 From Coq Require Import NArith ZArith List Bool Arith Lia Permutation.
-From LCP Require Import Base.CheckedMem DS.AllocOracle Gen.Repo_heap DS.PtrHeap DS.TimerQueue DS.PtrHeapInst
-  DS.PtrHeapProofs DS.PtrHeapOps DS.PtrHeapAlloc DS.PtrHeapHistory DS.TimerQueueProofs DS.TimerQueueAlloc.
+From LCP Require Import Base.CheckedMem DS.AllocOracle Gen.Repo_heap DS.PtrHeap DS.TimerQueue DS.PtrHeapInst DS.PtrHeapProofs DS.PtrHeapOps DS.PtrHeapAlloc DS.PtrHeapHistory DS.TimerQueueProofs DS.TimerQueueAlloc.
 Import ListNotations.
 
 Lemma repo_tc_std : repo_tc = std_tc.
